@@ -56,11 +56,14 @@ fn total_call(acc: &mut Acc, idx: u64, what: &str, case: impl FnOnce() -> Value,
 }
 
 fn cbrt_chunk(acc: &mut Acc, lo: u64, hi: u64) {
+    cbrt_chunk_sh(acc, lo, hi, 0)
+}
+fn cbrt_chunk_sh(acc: &mut Acc, lo: u64, hi: u64, sh: u32) {
     let (mut normal, mut other) = (0u64, 0u64);
     let mut worst = 0.0f64;
     let mut wb = 0u32;
     for b in lo..hi {
-        let bits = b as u32;
+        let bits = (b << sh) as u32;
         let x = f32::from_bits(bits);
         let mk = || json!({"kind":"c18","fn":"cbrtf","x":bits});
         let Some(r) = total_call(acc, b, "cbrtf", mk, || cbrtf(x)) else { return };
@@ -94,11 +97,14 @@ fn cbrt_chunk(acc: &mut Acc, lo: u64, hi: u64) {
 }
 
 fn exp_chunk(acc: &mut Acc, lo: u64, hi: u64) {
+    exp_chunk_sh(acc, lo, hi, 0)
+}
+fn exp_chunk_sh(acc: &mut Acc, lo: u64, hi: u64, sh: u32) {
     let (mut mid, mut hi_tail, mut lo_tail, mut other) = (0u64, 0u64, 0u64, 0u64);
     let mut worst = 0.0f64;
     let mut wb = 0u32;
     for b in lo..hi {
-        let bits = b as u32;
+        let bits = (b << sh) as u32;
         let x = f32::from_bits(bits);
         let mk = || json!({"kind":"c18","fn":"expf","x":bits});
         let Some(r) = total_call(acc, b, "expf", mk, || expf(x)) else { return };
@@ -122,7 +128,10 @@ fn exp_chunk(acc: &mut Acc, lo: u64, hi: u64) {
             }
         } else if (-1e38..=-88.0).contains(&x) {
             lo_tail += 1;
-            if r != 0.0 {
+            // a build that did not request `fastmath` answers with libm's exp, whose correctly rounded
+            // result is a non-zero subnormal for x in (-104, -88]: "agrees with libm" (C20) governs there
+            let near_libm = !cfg!(feature = "fastmath") && ((r as f64) - (x as f64).exp()).abs() <= 2.0 * 1.4e-45;
+            if r != 0.0 && !near_libm {
                 acc.violation(b, "expf-lower-tail".into(), format!("expf({x:e}) = {r:e}, expected 0"), mk());
                 return;
             }
@@ -198,13 +207,14 @@ pub fn run(tier: Tier) -> Report {
     }
     let mut base = 10_000u64;
     // cbrtf, expf: every bit pattern
-    rep.acc.merge(par_chunks(all, 1 << 20, |acc, lo, hi| cbrt_chunk(acc, lo, hi)));
+    let sh: u32 = if light() { 7 } else { 0 };
+    rep.acc.merge(par_chunks(all >> sh, 1 << 20, |acc, lo, hi| cbrt_chunk_sh(acc, lo, hi, sh)));
     base += all;
-    rep.acc.merge(par_chunks(all, 1 << 20, |acc, lo, hi| exp_chunk(acc, lo, hi)));
+    rep.acc.merge(par_chunks(all >> sh, 1 << 20, |acc, lo, hi| exp_chunk_sh(acc, lo, hi, sh)));
     base += all;
     let _ = base;
     // powf: positive normals x fixed exponents
-    let shift: u32 = tier.pick(8, 0);
+    let shift: u32 = if light() { 12 } else { tier.pick(8, 0) };
     let first = 0x0080_0000u64 >> shift;
     let last = 0x7F80_0000u64 >> shift; // exclusive (inf)
     for &y in EXPONENTS.iter() {
@@ -254,7 +264,7 @@ pub fn run(tier: Tier) -> Report {
         }
     }
     // (exponent x mantissa) x y-grid product
-    let mant_bits: u32 = tier.pick(6, 10);
+    let mant_bits: u32 = if light() { 4 } else { tier.pick(6, 10) };
     let nm = 1u64 << mant_bits;
     let ny = 1601u64;
     let total = 254 * nm * ny;
